@@ -141,7 +141,13 @@ class World:
         self.emit({"op": "set_default", "c": c, "u": u}, {})
 
     def vqn(self, c, x):
-        q = self.conts[c].valid_qualified_name(x)
+        try:
+            q = self.conts[c].valid_qualified_name(x)
+        except Exception as e:  # noqa  (the resolver answers None for what it cannot resolve; it does not raise)
+            self.crashes = getattr(self, "crashes", [])
+            self.crashes.append(("valid_qualified_name(%r)" % (x,), e, len(self.ops)))
+            self.emit({"op": "vqn", "c": c, "x": proto.enc_name(x)}, {"q": None, "crash": err_name(e)})
+            return None
         self.emit({"op": "vqn", "c": c, "x": proto.enc_name(x)}, {"q": proto.canon_q(q)})
         return q
 
